@@ -1,5 +1,6 @@
 import Oracle.Util
 import MobiusModel.Merge
+import MobiusModel.KickTimer
 /-! Oracle handlers for C14 (model functions exposed on the line protocol). -/
 namespace Oracle
 open Mobius
@@ -26,6 +27,11 @@ def c14Handlers : List (String × Handler) := [
     | [n, d] => match Transaction.decode (hexb d) with
       | .ok t => s!"single {(singleWrite t).map List.length} copy {(copyWrite (num n) t).map List.length}"
       | _ => "undecodable"
+    | _ => "bad-op"),
+  -- kickhist <op,op,…> : connection-level events (add | spin:<id> | leave:<n> | timer:<n>) through Kick.step;
+  -- answer = the client manager's view (ids handed out, whom each Disconnect removed)
+  ("kickhist", fun (a : List String) => match a with
+    | [ops] => Kick.oracleLine ops
     | _ => "bad-op")
 ]
 
